@@ -158,6 +158,16 @@ func (e *Exec) addPC(c *Term) {
 			e.refined[c.args[1].id] = c.args[0].val
 		}
 	}
+	if c.op == "not" && c.args[0].op == "=" {
+		// a one-bit quantity that is not v is the other value
+		eq := c.args[0]
+		for k := 0; k < 2; k++ {
+			t, v := eq.args[k], eq.args[1-k]
+			if v.isConst() && !t.isConst() && t.sort.k == sBV && upperBound(t) == 1 {
+				e.refined[t.id] = 1 - v.val
+			}
+		}
+	}
 	// record conjuncts too, for the syntactic cache
 	if c.op == "and" {
 		for _, a := range c.args {
